@@ -534,7 +534,14 @@ func runC15(ctx *Ctx, idx int) {
 			var e *encode.TypeEncoder
 			var err error
 			how := "NewTypeEncoderEndian"
-			switch t % 3 {
+			// Endian, Type and Size are exported, documented fields: an encoder
+			// may also be written as a literal, or have its byte order assigned
+			// after construction (on the object or on a by-value copy of it)
+			var other binary.ByteOrder = binary.BigEndian
+			if be {
+				other = binary.LittleEndian
+			}
+			switch (t / 2) % 6 {
 			case 0:
 				e, err = encode.NewTypeEncoderEndian(val.Interface(), order)
 			case 1:
@@ -543,7 +550,33 @@ func runC15(ctx *Ctx, idx int) {
 			case 2:
 				how = "NewTypeEncoderEndian(pointer)"
 				e, err = encode.NewTypeEncoderEndian(val.Addr().Interface(), order)
+			case 3:
+				how = "struct literal"
+				e = &encode.TypeEncoder{Endian: order, Type: typ, Size: binary.Size(val.Interface())}
+			case 4:
+				how = "Endian assigned after construction"
+				e, err = encode.NewTypeEncoderEndian(val.Interface(), other)
+				if err == nil {
+					e.Encode(val.Interface())
+					e.Endian = order
+				}
+			case 5:
+				how = "by-value copy with another Endian"
+				var e0 *encode.TypeEncoder
+				e0, err = encode.NewTypeEncoderEndianByType(typ, other)
+				if err == nil {
+					c := *e0
+					c.Endian = order
+					e = &c
+					// the original keeps its own order
+					val0 := reflect.New(typ).Elem()
+					ref0 := fillRandom(r, val0, !be, nil)
+					if !chk(fmt.Sprintf("TypeEncoder(%s,be=%v,original of a copied encoder)", typ.String(), !be), e0, val0.Interface(), ref0) {
+						break
+					}
+				}
 			}
+			ctx.Count("typeencoder_made_by:"+how, 1)
 			if err != nil {
 				fail("TypeEncoder(random type)", "constructor-error", nil, map[string]interface{}{"type": typ.String(), "how": how, "error": err.Error()})
 				break
@@ -648,7 +681,7 @@ func runC15(ctx *Ctx, idx int) {
 func init() {
 	register(&CheckDef{
 		ID: "C15", Level: "exploration",
-		Rule:     "case = one value of one encoder; oracle: Encode(v) equals an independent reference layout (shift-and-mask little endian; big-endian 16-bit length + bytes for String16; field walk in the configured order for TypeEncoder), Decode(Encode(v)) == v consuming len(Encode(v)) == GetSize(v) == GetEncodedSize(Encode(v)), the same with 9 unrelated bytes appended; I8/I16/U16 exhaustive in both tiers, I32/U32 every 13th value with random phase plus chunk boundaries (quick) or all 2^32 values (thorough), 64-bit and native int: single-bit, all-ones-below, byte-pattern, around 0 and MinInt64, random; String16 length classes 0..65535; Bytes sizes 0..4096; TypeEncoder over a flat struct, a nested struct, primitives and randomly generated fixed-size types (reflect.StructOf/ArrayOf: nested arrays and structs, arrays of padded structs, floats, bools) in both byte orders through all three constructors; Dummy on nil; distinct_nontrivial counts work items (value ranges / sample batches), evaluations counts values",
+		Rule:     "case = one value of one encoder; oracle: Encode(v) equals an independent reference layout (shift-and-mask little endian; big-endian 16-bit length + bytes for String16; field walk in the configured order for TypeEncoder), Decode(Encode(v)) == v consuming len(Encode(v)) == GetSize(v) == GetEncodedSize(Encode(v)), the same with 9 unrelated bytes appended; I8/I16/U16 exhaustive in both tiers, I32/U32 every 13th value with random phase plus chunk boundaries (quick) or all 2^32 values (thorough), 64-bit and native int: single-bit, all-ones-below, byte-pattern, around 0 and MinInt64, random; String16 length classes 0..65535; Bytes sizes 0..4096; TypeEncoder over a flat struct, a nested struct, primitives and randomly generated fixed-size types (reflect.StructOf/ArrayOf: nested arrays and structs, arrays of padded structs, floats, bools) in both byte orders through all three constructors, as a struct literal, with Endian assigned after construction and on a by-value copy; Dummy on nil; distinct_nontrivial counts work items (value ranges / sample batches), evaluations counts values",
 		NumCases: func(tier string) int { return len(c15Jobs(tier)) },
 		Run:      runC15,
 		MinNontrivial: func(tier string) int {
@@ -662,7 +695,7 @@ func init() {
 			if tier == "thorough" && (m.C("exhaustive32:i32") != 1<<32 || m.C("exhaustive32:u32") != 1<<32) {
 				missed = append(missed, "32-bit exhaustive")
 			}
-			for _, g := range []string{"values:i32", "values:u32", "values:i64", "values:u64", "values:int", "values:str16", "values:bytes", "values:struct", "values:prim", "values:dummy", "values:defined_types", "random_struct_types", "random_types:array_of_padded_structs", "str16:lenclass_16", "str16:lenclass_0", "bytes:sizeclass_0", "bytes:sizeclass_13"} {
+			for _, g := range []string{"values:i32", "values:u32", "values:i64", "values:u64", "values:int", "values:str16", "values:bytes", "values:struct", "values:prim", "values:dummy", "values:defined_types", "random_struct_types", "random_types:array_of_padded_structs", "typeencoder_made_by:struct literal", "typeencoder_made_by:Endian assigned after construction", "typeencoder_made_by:by-value copy with another Endian", "str16:lenclass_16", "str16:lenclass_0", "bytes:sizeclass_0", "bytes:sizeclass_13"} {
 				if m.C(g) == 0 {
 					missed = append(missed, g)
 				}
